@@ -370,6 +370,13 @@ fn run_job(job: &Value) -> (Value, bool) {
                 run_serial(&b, &bases2)
             }));
             res.insert("serial".into(), run_to_json(ser));
+            // the single-threaded walker again, with entries sorted by file name (a deterministic listing order)
+            let sorted = std::panic::catch_unwind(std::panic::AssertUnwindSafe(|| {
+                let mut b = builder(&nodes2, &bases2, &roots2, &c2);
+                b.sort_by_file_name(|a, b| a.cmp(b));
+                run_serial(&b, &bases2)
+            }));
+            res.insert("sorted".into(), run_to_json(sorted));
             let _ = tx.send(("serial".to_string(), Value::Null));
             let mut par = serde_json::Map::new();
             for t in &threads2 {
